@@ -154,6 +154,17 @@ def StdTable (tbl : FuncTable) : Prop :=
 
 instance (tbl : FuncTable) : Decidable (StdTable tbl) := by unfold StdTable; infer_instance
 
+/-- The registry has exactly the functions the evaluator model dispatches on (`Query.applyFn`): the five standard ones and
+    the type functions under both of their names, with the signatures the model gives them - nothing else is registered, so
+    every name the gate lets through is a name the model evaluates. -/
+def ModelledTable (tbl : FuncTable) : Prop :=
+  StdTable tbl ∧
+  lookupFn tbl "typeof".toList = some ([.nodes], .value) ∧ lookupFn tbl "type".toList = some ([.nodes], .value) ∧
+  lookupFn tbl "isinstance".toList = some ([.nodes, .value], .logical) ∧ lookupFn tbl "is".toList = some ([.nodes, .value], .logical) ∧
+  tbl.length = 9
+
+instance (tbl : FuncTable) : Decidable (ModelledTable tbl) := by unfold ModelledTable; infer_instance
+
 mutual
   /-- The operands of every comparison are atoms (literal, query or function call) — the RFC grammar's
       `comparable`. A parenthesised logical expression as a comparison operand is outside the grammar
